@@ -50,7 +50,10 @@ fn c19_blocks_self_consistent() {
     assert!(b.len() == 16);
     match SignType::from_bytes(b) {
         Ok(t2) => assert!(t2 == t),
-        Err(_) => panic!("own configuration block rejected"),
+        Err(e) => {
+            core::mem::forget(e); // never drop an error value in a harness: its drop glue drags in every dyn Error
+            panic!("own configuration block rejected")
+        }
     }
     let (w, h) = t.dimensions();
     match b[0] {
